@@ -1830,7 +1830,23 @@ class Interp:
         pass
 
     def st_Assign(self, node, fr):
-        v = self.ev(node.value, fr)
+        try:
+            v = self.ev(node.value, fr)
+        except Unsupported as e:
+            loop = getattr(node, "_pyvc_desugared", None)
+            if loop is None or "needs a loop contract" not in str(e) or self.contracts is None or not isinstance(loop.iter, (ast.Name, ast.Attribute)):
+                raise
+            # xs = [e for t in it if c] over a list of symbolic length: executed as the loop it abbreviates, under that loop's contract
+            tname = [n.id for n in ast.walk(loop.target) if isinstance(n, ast.Name)]
+            saved = {n: fr.locals[n] for n in tname if n in fr.locals}
+            self.assign(node.targets[0], self.new_list([]), fr)
+            self.st_For(loop, fr)
+            for n in tname:             # the comprehension's own variable does not leak
+                if n in saved:
+                    fr.locals[n] = saved[n]
+                else:
+                    fr.locals.pop(n, None)
+            return
         for t in node.targets:
             self.assign(t, v, fr)
 
